@@ -44,6 +44,7 @@ type violationRec struct {
 	Model     map[string]string `json:"model,omitempty"`
 	Values    []string          `json:"values"`
 	Count     int               `json:"count"`
+	KnownIdx  int               `json:"-"`
 	Where     string            `json:"where,omitempty"`
 }
 
@@ -72,7 +73,7 @@ func signature(msg string, labels []string) string {
 	return msg + " | " + strings.Join(labels, " | ")
 }
 
-func explore(ld *loaded, fn *ssa.Function, hc harnessCfg, params map[string]int) *harnessResult {
+func explore(ld *loaded, fn *ssa.Function, hc harnessCfg, params map[string]int, known []knownFinding) *harnessResult {
 	t0 := time.Now()
 	res := &harnessResult{Name: fn.Name(), Funcs: map[string]int{}, AbortReasons: map[string]int{}, PanicMsgs: map[string]int{},
 		Reached: map[string]bool{}, Stubs: map[string]int{}}
@@ -108,6 +109,8 @@ func explore(ld *loaded, fn *ssa.Function, hc harnessCfg, params map[string]int)
 	cond := sync.NewCond(&mu)
 	funcs := map[*ssa.Function]int{}
 	sigs := map[string]*violationRec{}
+	knownSeen := map[int]bool{}
+	nUnknown := 0
 	stop := false
 
 	worker := func(id int) {
@@ -244,8 +247,14 @@ func explore(ld *loaded, fn *ssa.Function, hc harnessCfg, params map[string]int)
 				default:
 					res.Aborts++
 					r := o.Reason
+					if i := strings.Index(r, " @ "); i >= 0 && strings.Contains(r, "fuel exhausted") {
+						r = r[:i]
+					}
 					if len(r) > 300 {
 						r = r[:300]
+					}
+					if len(in.Labels) > 0 {
+						r += " [" + in.Labels[0] + "]"
 					}
 					res.AbortReasons[r]++
 					if strings.Contains(r, "fuel exhausted") {
@@ -258,18 +267,38 @@ func explore(ld *loaded, fn *ssa.Function, hc harnessCfg, params map[string]int)
 			case *gexec.Violation:
 				sig := signature(o.Msg, o.Labels)
 				if v, ok := sigs[sig]; ok {
-					v.Count++
+					if v.Count > 0 {
+						v.Count++
+					}
 				} else {
 					v := &violationRec{Harness: fn.Name(), Kind: o.Kind, Msg: o.Msg, Labels: o.Labels, Signature: sig, Values: o.Replay, Count: 1, Model: map[string]string{}, Where: o.Where}
 					for k, x := range o.Model {
 						v.Model[k] = x.String()
 					}
 					sigs[sig] = v
-					res.Violations = append(res.Violations, v)
+					isKnown := false
+					for ki, k := range known {
+						if (k.Harness == fn.Name() || k.Harness == "*") && k.Match.MatchString(sig) {
+							isKnown = true
+							v.KnownIdx = ki + 1
+							// keep one representative per listed finding for the native replay
+							if knownSeen[ki] {
+								v.Count = -1
+							}
+							knownSeen[ki] = true
+							break
+						}
+					}
+					if v.Count != -1 {
+						res.Violations = append(res.Violations, v)
+					}
 					if opt.verbose {
 						fmt.Printf("  violation %s: %s values=%v\n", fn.Name(), sig, o.Replay)
 					}
-					if len(res.Violations) >= maxViol {
+					if !isKnown {
+						nUnknown++
+					}
+					if nUnknown >= maxViol {
 						res.BudgetHit = fmt.Sprintf("stopped after %d distinct violations", maxViol)
 						stop = true
 					}
